@@ -175,10 +175,10 @@ def eval_cases(outdir):
     shards = sorted(glob.glob(os.path.join(outdir, "cases*.v")))
 
     def one(f):
-        return f, sh(["coqc", "-Q", COQ, "Verif", "-Q", ".", "Top", os.path.basename(f)], cwd=outdir, timeout=1500)
+        return f, sh("ulimit -s unlimited 2>/dev/null; exec coqc -Q %s Verif -Q . Top %s" % (COQ, os.path.basename(f)), cwd=outdir, timeout=1500)
 
     M, S, n = [], [], 0
-    with ThreadPoolExecutor(max_workers=8) as ex:
+    with ThreadPoolExecutor(max_workers=16) as ex:
         for f, (rc, out) in ex.map(one, shards):
             if rc != 0:
                 return None, None, 0, "coqc %s failed:\n%s" % (f, out[-3000:])
@@ -241,7 +241,7 @@ def main():
     log = open(os.path.join(rundir, "check.log"), "w")
 
     def L(*a):
-        print(*a, file=log, flush=True)
+        print("[%.1fs]" % (time.time() - t0), *a, file=log, flush=True)
 
     violations = []      # (replay_path, no_failing_input_found)
     known_lines = []
